@@ -332,6 +332,13 @@ pub fn c16(rep: &mut Report, cfg: &Cfg) {
     let nhist = cfg.share(cfg.n(60, 12_000));
     for _ in 0..nhist {
         let mut rig = PortRig::new();
+        // long-running systems: some histories start just below 2^31, 2^32 or 2^33 states
+        match rng.below(6) {
+            0 => rig.advance(0x7fff_f000usize),
+            1 => rig.advance(0xffff_f000usize),
+            2 => rig.advance(0x1_ffff_f000usize),
+            _ => {}
+        }
         let len = 1000;
         let mut seq = vec![];
         rep.evaluations += 1;
@@ -345,6 +352,7 @@ pub fn c16(rep: &mut Report, cfg: &Cfg) {
             };
             seq.push(op);
             rig.advance(rng.below(500) as usize);
+            rep.cell("state-sum-magnitude", &[(64 - (rig.cpu.bus.cpu_state_sum as u64).leading_zeros()) as u64 / 4]);
             let res = rig.apply(op, true);
             states.insert(rig.model[(port - 1) as usize]);
             if let Some(v) = res {
@@ -434,12 +442,17 @@ impl TOp {
     fn text(&self) -> String {
         match self {
             TOp::Elapse(s) => format!("e{}", s),
-            TOp::Write(a, v) => format!("w{:x}={:02x}", a & 0xff, v),
+            TOp::Write(a, v) if (0xffff80..=0xffff9f).contains(a) => format!("w{:x}={:02x}", a & 0xff, v),
+            TOp::Write(a, v) => format!("W{:x}={:02x}", a, v),
         }
     }
     fn parse(s: &str) -> Option<TOp> {
         if let Some(n) = s.strip_prefix('e') {
             return Some(TOp::Elapse(n.parse().ok()?));
+        }
+        if let Some(x) = s.strip_prefix('W') {
+            let (a, v) = x.split_once('=')?;
+            return Some(TOp::Write(u32::from_str_radix(a, 16).ok()?, u8::from_str_radix(v, 16).ok()?));
         }
         let (a, v) = s.strip_prefix('w')?.split_once('=')?;
         Some(TOp::Write(0xffff00 | u32::from_str_radix(a, 16).ok()?, u8::from_str_radix(v, 16).ok()?))
@@ -660,6 +673,16 @@ fn gen_timer_history(rng: &mut Rng, len: usize, tcr0: u8) -> Vec<TOp> {
             4 | 5 => {
                 // the CPU clears flags (never sets them)
                 ops.push(TOp::Write(TCSR, 0));
+            }
+            6 | 7 => {
+                // a store to an unrelated plain location (other I/O bytes, RAM) must not disturb the timer
+                let a = match rng.below(4) {
+                    0 => 0xfee00b + rng.below(0xf5) as u32,
+                    1 => 0xffff20 + rng.below(0x60) as u32,
+                    2 => 0xffffa0 + rng.below(0x30) as u32,
+                    _ => 0xffc000 + rng.below(0x3000) as u32,
+                };
+                ops.push(TOp::Write(a, rng.u8()));
             }
             _ => {
                 let s = match mode {
